@@ -267,6 +267,15 @@ class Background(object):
         if self.errors:
             raise self.errors[0]
 
+    def wait(self, key):
+        for t in self.threads:
+            if t.name == "tlc-" + key:
+                t.join()
+        if key not in self.results:
+            self.join()
+            raise RuntimeError("background TLC run %s produced no result" % key)
+        return self.results[key]
+
 
 # ------------------------------------------------------------------------------------------------
 # layer 1: real forked processes
@@ -294,13 +303,24 @@ def l1_scenarios(rng, quick):
         cfg = fams[fam](n)
         style = [[rng.choice(["full", "slice"]) for _ in range(RU)] for _ in range(RP)]
         out.append({"name": "%s/%d/%s-%s" % (fam, n, fmt, mode), "fmt": fmt, "mode": mode, "cfg": cfg, "style": style, "idx": idx})
-    # the in-tree caller toast.ToastSampler (update mode): its `with` body cannot be observed, only the final files
-    for k in ((1, 2) if quick else range(len(kinds))):
+    # the in-tree caller toast.ToastSampler (update mode), as several separately started sampling jobs whose masked samplers
+    # cover disjoint / overlapping parts of FRESH tiles (no file yet): the `with` body cannot be observed, only the final
+    # files; the jobs rendezvous inside the sampler callable so that they reach each tile together
+    for k, n in (((0, 3), (1, 2), (2, 2)) if quick else [(k, n) for k in range(len(kinds)) for n in (2, 3)]):
         fmt, mode = kinds[k]
-        cfg = mkcfg([2, 2, 2], [[1, 1], [1, 2], [1, 1]], [[[1], [1, 4]], [[2], [2, 4]], [[3], [3, 4]]], init=((), (1,)))
-        out.append({"name": "toast-sampler/3/%s-%s" % (fmt, mode), "fmt": fmt, "mode": mode, "cfg": cfg, "style": None, "idx": len(out),
-                    "caller": "toast"})
+        out.append(toast_scenario(fmt, mode, n, len(out)))
+    if not quick:
+        # a holder that stays in its critical section for 12 s (any finite "the lock must be stale by now" bound up to that
+        # is a mutual-exclusion failure): real processes, real clock
+        cfg = mkcfg([1, 1], [[1]] * 2, [[[1, 4]], [[2, 4]]], init=((3,), ()))
+        out.append({"name": "stalled-holder/2/npy-f32", "fmt": "npy", "mode": "f32", "cfg": cfg, "style": [["full"] * RU] * RP, "idx": len(out),
+                    "stall": 12.0})
     return out
+
+
+def toast_scenario(fmt, mode, n, idx):
+    cfg = mkcfg([2] * n, [[1, 2]] * n, [[[p], [p, 4 if p != 4 else 1]] for p in range(1, n + 1)])
+    return {"name": "toast-sampler-fresh/%d/%s-%s" % (n, fmt, mode), "fmt": fmt, "mode": mode, "cfg": cfg, "style": None, "idx": idx, "caller": "toast"}
 
 
 def _l1_updater(p, sc, d, sh):
@@ -331,7 +351,11 @@ def _l1_updater(p, sc, d, sh):
             region = cfg["reg"][p - 1][i - 1]
             if tiles:
                 arr = lifted(mode, [rid(p, i) if j in region else 0 for j in range(1, NPIX + 1)])
-                ToastSampler(pio, (lambda lon, lat, arr=arr: arr[::-1] if flip else arr), False).visit_callback(real_pos(t), tiles[POS_XY[t]])
+
+                def sampler(lon, lat, arr=arr):
+                    barrier.wait(30)                          # the jobs reach this tile together
+                    return arr[::-1] if flip else arr
+                ToastSampler(pio, sampler, False).visit_callback(real_pos(t), tiles[POS_XY[t]])
                 continue
             with pio.update_image(real_pos(t), masked_mode=mode_of(mode), default="masked", **update_kwargs(sc, p)) as basis:
                 t0 = draw()                                   # before the work
@@ -341,7 +365,7 @@ def _l1_updater(p, sc, d, sh):
                         overlap.value = 1
                         cond.notify_all()
                     elif i == 1:
-                        cond.wait(DWELL)
+                        cond.wait(sc["stall"] if (p == 1 and sc.get("stall")) else DWELL)
                 px0 = project(basis.asarray(), mode)
                 events.append({"ev": "read", "p": p, "i": i, "px": px0, "t": t0})
                 apply_contribution(basis, mode, rid(p, i), region, sc["style"][p - 1][i - 1])
@@ -476,14 +500,28 @@ def judge_recording(ctx, layer, key_prefix, sc, rec, accepted, consumed):
 # layer 2: thread-level, SoftFileLock / read_image / Image.save as sync points of simmp.Sched
 # ------------------------------------------------------------------------------------------------
 
-class _FastTime(object):
-    """filelock's poll loop sleeps between attempts; every attempt is a sync point here, so the sleep is pointless."""
+class _VirtualTime(object):
+    """The clock filelock's acquire loop sees inside the thread-level layer.  Every attempt is a sync point, so sleeping
+    between attempts is pointless; and because a holder may be stalled arbitrarily long between two of its steps, each
+    failed poll stands for (at least) one second of waiting: sleep() advances the virtual clock instead of blocking."""
+
+    def __init__(self):
+        self.offset = 0.0
 
     def __getattr__(self, name):
         return getattr(time, name)
 
-    def sleep(self, _s):
-        return None
+    def sleep(self, s):
+        self.offset += max(float(s), 1.0)
+
+    def perf_counter(self):
+        return time.perf_counter() + self.offset
+
+    def monotonic(self):
+        return time.monotonic() + self.offset
+
+    def time(self):
+        return time.time() + self.offset
 
 
 class Harness(object):
@@ -526,6 +564,20 @@ class Harness(object):
         name = "p%d" % p
         st = self.info[name]
         pio = PyramidIO(self.d, default_format=sc["fmt"])
+        if sc.get("caller") == "toast":
+            from toasty.toast import ToastSampler, generate_tiles
+            tiles = {tuple(tl.pos): tl for tl in generate_tiles(POS_XY[1][0])}
+            flip = pio.get_default_vertical_parity_sign() == 1
+            for i in range(1, cfg["nupd"][p - 1] + 1):
+                st.update(i=i, tried=False, buf=None)
+                t = cfg["pos"][p - 1][i - 1]
+                arr = lifted(mode, [rid(p, i) if j in cfg["reg"][p - 1][i - 1] else 0 for j in range(1, NPIX + 1)])
+
+                def sampler(lon, lat, arr=arr):
+                    self.gate("sample")
+                    return arr[::-1] if flip else arr
+                ToastSampler(pio, sampler, False).visit_callback(real_pos(t), tiles[POS_XY[t]])
+            return
         for i in range(1, cfg["nupd"][p - 1] + 1):
             st.update(i=i, tried=False, buf=None)
             t = cfg["pos"][p - 1][i - 1]
@@ -620,7 +672,7 @@ class Harness(object):
             filelock.SoftFileLock._acquire, filelock.SoftFileLock._release = _acquire, _release
             PyramidIO.read_image, Image.save = read_image, save
             if o_time is not None:
-                fapi.time = _FastTime()
+                fapi.time = _VirtualTime()
             try:
                 yield
             finally:
@@ -813,9 +865,32 @@ def explore_run(sc, d, chooser, fail_bound=None):
     return rec, alts
 
 
+def stall_chooser(stall_gate, polls, holder="p1", waiter="p2"):
+    """Schedule policy "stall the lock holder": run `holder` up to (not through) `stall_gate`, then let `waiter` take up to
+    `polls` steps (with the lock honoured these are all failed attempts, each advancing the virtual clock by >= 1 s),
+    then let everything finish."""
+    st = {"phase": 0, "n": 0}
+
+    def choose(H, allowed, n):
+        pend = {name: kind for name, kind, _p in H.waiting()}
+        if st["phase"] == 0:
+            if pend.get(holder) == stall_gate or holder not in allowed:
+                st["phase"] = 1
+            else:
+                return allowed.index(holder)
+        if st["phase"] == 1:
+            if waiter in allowed and st["n"] < polls:
+                st["n"] += 1
+                return allowed.index(waiter)
+            st["phase"] = 2
+        return 0
+    return choose
+
+
 def uses_softfilelock(ctx):
     """Does update_image go through filelock.SoftFileLock (the precondition of layer 2)?"""
-    sc = {"name": "probe", "fmt": "npy", "mode": "f32", "cfg": mkcfg([1], [[1]], [[[1]]]), "style": [["full"] * RU] * RP, "idx": 0}
+    sc = {"name": "probe", "fmt": "npy", "mode": "f32", "cfg": mkcfg([2], [[1, 2]], [[[1], [2]]], init=((3,), ())),
+          "style": [["full"] * RU] * RP, "idx": 0}        # one update of an existing tile, one of a fresh tile
     rec, _ = explore_run(sc, ctx.mkdtemp("probe"), lambda H, allowed, n: 0)
     return rec
 
@@ -927,80 +1002,27 @@ def run(ctx):
         bg.start("mc3x3", lambda: ctx.tlc("MCTileLock3x3", extra={"MCTileLock3x3.tla": mc_module("MCTileLock3x3", big3)},
                                           cfg_text=MC_CFG % ("Spec", 3, 3, inv), workers=6, timeout=6000))
         ctx.note("mc_bound_thorough", "also 4 processes x 2 updates and 3 processes x 3 updates (2 configurations each), all interleavings")
+    for inv_name in ("Mutex", "NoLostUpdate"):
+        neg = [mkcfg([1, 1], [[1, 1]] * 2, [[[1], [1]], [[2], [2]]], keymode="steal", maxp=3, maxu=2)]
+        bg.start("neg-steal-" + inv_name, (lambda neg=neg, inv_name=inv_name: ctx.tlc(
+            "MCTileLockNeg", extra={"MCTileLockNeg.tla": mc_module("MCTileLockNeg", neg)}, cfg_text=MC_CFG % ("Spec", 3, 2, "INVARIANT " + inv_name),
+            workers=1, timeout=600, expect_violation=True, count=False)))
     sims = sim_configs()
-    nsim = 100 if quick else 2000
+    nsim = 80 if quick else 2000
     bg.start("sim", lambda: ctx.tlc("MCTileLockSim", extra={"MCTileLockSim.tla": mc_module("MCTileLockSim", [s["cfg"] for s in sims], [EMIT])},
                                     cfg_text=MC_CFG % ("Spec", RP, RU, "INVARIANT Emit\nINVARIANT Mutex\nINVARIANT NoLostUpdate"),
                                     simulate=nsim, depth=400, workers=1, timeout=3000, count=False))
 
-    # ---- collect layer 1
-    t_l1 = time.time()
-    l1 = []
-    for w, out in managers:
-        w.join(900)
-        if w.is_alive():
-            w.kill()
-            bg.join()
-            ctx.machinery("layer-1 manager process did not finish")
-        if not os.path.exists(out):
-            bg.join()
-            ctx.machinery("layer-1 manager process died (exit code %s)" % w.exitcode)
-        l1 += json.load(open(out))
-    l1.sort(key=lambda r: r["idx"])
-    for r in l1:
-        if "machinery" in r:
-            bg.join()
-            ctx.machinery("layer-1 scenario %s: %s" % (r["sc"], r["machinery"]))
-    t_bg = time.time()
-    bg.join()
-    ctx.note("phase_wall", {"layer1_wait": round(t_bg - t_l1, 1), "tlc_wait": round(time.time() - t_bg, 1)})
-    for km in ("proc", "fmt"):
-        if bg.results["neg-" + km].violated != "NoLostUpdate":
-            ctx.machinery("the specification does not refute the lock-key design %r (got %r)" % (km, bg.results["neg-" + km].violated))
-    ctx.note("mc_configs", len(mcs))
-    ctx.note("mc_bound", "3 processes x 2 updates, 4 abstract pixels, 2 tiles; all interleavings")
-    ctx.exhaustive = True
-
-    # ---- layer 2 (thread level): only if update_image goes through SoftFileLock
+    # ---- layer 2 (thread level; runs while the real processes of layer 1 and the TLC runs are busy): only if update_image
+    # goes through SoftFileLock
     probe = uses_softfilelock(ctx)
     layer2 = all(g in probe["gates"] for g in ("try", "release"))
     ctx.note("layer2", "on" if layer2 else "skipped: update_image does not reach filelock.SoftFileLock._acquire/_release (gates seen: %s)" % probe["gates"])
     traces = []      # (kind, sc, rec, hidden)
-    for sc, rec in zip(scs, l1):
-        traces.append(("real processes", sc, rec, L1_HIDDEN + (["read", "modify"] if sc.get("caller") else [])))
-        ctx.count(sum(sc["cfg"]["nupd"]))
     ndrift_steps = 0
     if layer2:
         if not all(g in probe["gates"] for g in ("read", "modify", "wbegin", "wend")):
             ctx.drift("update_image reaches SoftFileLock but not read_image / Image.save (gates seen: %s)" % probe["gates"])
-        # 2a
-        t_2a = time.time()
-        behs = split_behaviours(bg.results["sim"].json_lines("S"))
-        if not behs:
-            ctx.machinery("TLC simulation emitted no behaviours")
-        complete = sum(1 for b in behs if all(x == "done" for x in b[-1]["pc"]))
-        done = 0
-        seen_drift = set()
-        for b in behs:
-            sc = sims[b[0]["ci"] - 1]
-            status, detail, steps = replay_behaviour(ctx, sc, b, ctx.mkdtemp("rp"))
-            ctx.count(sum(sc["cfg"]["nupd"]))
-            if status == "ok":
-                ctx.trace_ok()
-                done += 1
-                ctx.distinct(("beh", b[0]["ci"], tuple((r["a"], r["p"]) for r in b)))
-            else:
-                ndrift_steps += 1
-                shape = " ".join(w for w in detail.split() if not w[:1].isdigit())[:70]
-                if shape not in seen_drift:
-                    seen_drift.add(shape)
-                    ctx.drift("replay of a TLC behaviour (%s, %s) diverges: %s" % (sc["name"], sc["fmt"], detail))
-        ctx.note("replayed_behaviours", {"ok": done, "diverged": ndrift_steps, "steps": sum(len(b) for b in behs), "run_to_completion": complete,
-                                         "with_failed_attempts": sum(1 for b in behs if any(r["a"] == "TryFail" for r in b)),
-                                         "wall": round(time.time() - t_2a, 1)})
-        if behs:
-            b = behs[0]
-            ctx.sample({"behaviour": [[r["a"], r["p"]] for r in b[:24]], "config": sims[b[0]["ci"] - 1]["cfg"]})
         # 2b exhaustive: 2 processes x 1 update on one tile, at most one failed attempt each
         dfs_sc = {"name": "dfs-2x1", "fmt": "npy", "mode": "f32", "cfg": mkcfg([1, 1], [[1]] * 2, [[[1, 4]], [[2, 4]]], init=((3,), ()), fmt=[0, 1]),
                   "style": [["full"] * RU, ["slice"] * RU] + [["full"] * RU] * 2, "idx": 0}
@@ -1028,17 +1050,126 @@ def run(ctx):
             traces.append(("thread-level schedule", dfs_sc, rec, []))
             ctx.count(2)
         ctx.note("dfs_2x1", {"schedules": nruns, "complete": explored_all, "failed_attempts_per_updater_at_most": fb})
+        # 2b exhaustive, the in-tree caller: two ToastSampler jobs on one FRESH tile (sampler call, lock, read, save begin/end
+        # are the sync points), then three jobs at random
+        tdfs = toast_scenario("npy", "f32", 2, 0)
+        tdfs["cfg"] = mkcfg([1, 1], [[1]] * 2, [[[1, 4]], [[2, 4]]])
+        tdfs["name"] = "dfs-toast-sampler-fresh-2x1"
+        stack, truns = [[]], 0
+        while stack and truns < cap:
+            prefix = stack.pop()
+
+            def chooser(H, allowed, n, prefix=prefix):
+                if n < len(prefix):
+                    return allowed.index(prefix[n]) if prefix[n] in allowed else 0
+                return 0
+            rec, alts = explore_run(tdfs, ctx.mkdtemp("tdfs"), chooser, fail_bound=fb if not quick else 0)
+            truns += 1
+            sched = rec["schedule"]
+            for k in range(len(prefix), len(sched)):
+                for alt in alts[k]:
+                    if alt != sched[k]:
+                        stack.append(sched[:k] + [alt])
+            traces.append(("thread-level schedule", tdfs, rec, ["read", "modify"]))
+            ctx.count(2)
+        ctx.note("dfs_toast_sampler_2x1", {"schedules": truns, "complete": not stack})
+        for k in range(12 if quick else 200):
+            fmt, mode = [("npy", "f32"), ("fits", "f32"), ("png", "rgba")][k % 3]
+            sc = toast_scenario(fmt, mode, 3, k)
+            sc["name"] = "rand-" + sc["name"]
+            r2 = __import__("random").Random(ctx.seed * 7919 + k)
+            rec, _ = explore_run(sc, ctx.mkdtemp("trnd"), lambda H, allowed, n, r2=r2: r2.randrange(len(allowed)))
+            traces.append(("thread-level schedule", sc, rec, ["read", "modify"]))
+            ctx.count(6)
+        # 2b policy "stall the lock holder": the holder stops before one of its steps while the waiter polls 40 times
+        # (>= 40 s of virtual time): whatever the waiter does about a lock it cannot get, exclusion must survive
+        nstall = 0
+        for gate_name in ("modify", "wbegin", "wend", "release"):
+            for fmt, mode in (("npy", "f32"), ("fits", "f32"), ("png", "rgba")) if (not quick or gate_name == "modify") else (("npy", "f32"),):
+                sc = {"name": "stall-holder-before-%s/%s" % (gate_name, fmt), "fmt": fmt, "mode": mode,
+                      "cfg": mkcfg([1, 2], [[1], [1, 1]], [[[1, 4]], [[2, 4], [3]]], init=((3,), ()), fmt=[0, 1]),
+                      "style": [["full"] * RU, ["slice"] * RU] + [["full"] * RU] * 2, "idx": 0}
+                rec, _ = explore_run(sc, ctx.mkdtemp("stall"), stall_chooser(gate_name, 40))
+                traces.append(("thread-level schedule", sc, rec, []))
+                ctx.count(3)
+                nstall += 1
+        ctx.note("stall_holder_schedules", {"runs": nstall, "waiter_polls": 40, "virtual_seconds_per_failed_poll": ">= 1"})
         # 2b random: bigger instances
         rsc = [dict(s, name="rand-" + s["name"]) for s in sims]
-        for k in range(40 if quick else 600):
+        for k in range(32 if quick else 600):
             sc = rsc[k % len(rsc)]
             r2 = __import__("random").Random(ctx.seed * 1000 + k)
             rec, _ = explore_run(sc, ctx.mkdtemp("rnd"), lambda H, allowed, n, r2=r2: r2.randrange(len(allowed)))
             traces.append(("thread-level schedule", sc, rec, []))
             ctx.count(sum(sc["cfg"]["nupd"]))
         ctx.note("schedule_exploration_wall", round(time.time() - t_2b, 1))
+        # 2a
+        t_2a = time.time()
+        behs = split_behaviours(bg.wait("sim").json_lines("S"))
+        if not behs:
+            ctx.machinery("TLC simulation emitted no behaviours")
+        complete = sum(1 for b in behs if all(x == "done" for x in b[-1]["pc"]))
+        done = 0
+        seen_drift = set()
+        for b in behs:
+            sc = sims[b[0]["ci"] - 1]
+            status, detail, steps = replay_behaviour(ctx, sc, b, ctx.mkdtemp("rp"))
+            ctx.count(sum(sc["cfg"]["nupd"]))
+            if status == "ok":
+                ctx.trace_ok()
+                done += 1
+                ctx.distinct(("beh", b[0]["ci"], tuple((r["a"], r["p"]) for r in b)))
+            else:
+                ndrift_steps += 1
+                shape = " ".join(w for w in detail.split() if not w[:1].isdigit())[:70]
+                if shape not in seen_drift:
+                    seen_drift.add(shape)
+                    ctx.drift("replay of a TLC behaviour (%s, %s) diverges: %s" % (sc["name"], sc["fmt"], detail))
+        ctx.note("replayed_behaviours", {"ok": done, "diverged": ndrift_steps, "steps": sum(len(b) for b in behs), "run_to_completion": complete,
+                                         "with_failed_attempts": sum(1 for b in behs if any(r["a"] == "TryFail" for r in b)),
+                                         "wall": round(time.time() - t_2a, 1)})
+        if behs:
+            b = behs[0]
+            ctx.sample({"behaviour": [[r["a"], r["p"]] for r in b[:24]], "config": sims[b[0]["ci"] - 1]["cfg"]})
     else:
         ctx.drift("update_image no longer uses filelock.SoftFileLock: the thread-level layer is skipped, real processes decide")
+
+    # ---- collect layer 1
+    t_l1 = time.time()
+    l1 = []
+    for w, out in managers:
+        w.join(900)
+        if w.is_alive():
+            w.kill()
+            bg.join()
+            ctx.machinery("layer-1 manager process did not finish")
+        if not os.path.exists(out):
+            bg.join()
+            ctx.machinery("layer-1 manager process died (exit code %s)" % w.exitcode)
+        l1 += json.load(open(out))
+    l1.sort(key=lambda r: r["idx"])
+    for r in l1:
+        if "machinery" in r:
+            bg.join()
+            ctx.machinery("layer-1 scenario %s: %s" % (r["sc"], r["machinery"]))
+    t_bg = time.time()
+    bg.join()
+    ctx.note("phase_wall", {"layer1_wait": round(t_bg - t_l1, 1), "tlc_wait": round(time.time() - t_bg, 1)})
+    for km in ("proc", "fmt"):
+        if bg.results["neg-" + km].violated != "NoLostUpdate":
+            ctx.machinery("the specification does not refute the lock-key design %r (got %r)" % (km, bg.results["neg-" + km].violated))
+    for inv_name in ("Mutex", "NoLostUpdate"):
+        if bg.results["neg-steal-" + inv_name].violated != inv_name:
+            ctx.machinery("the specification does not refute 'finite lock timeout + takeover' on %s (got %r)"
+                          % (inv_name, bg.results["neg-steal-" + inv_name].violated))
+    ctx.note("refuted_designs", ["lock key per process", "lock key per format argument", "finite lock timeout + takeover (StealLock)"])
+    ctx.note("mc_configs", len(mcs))
+    ctx.note("mc_bound", "3 processes x 2 updates, 4 abstract pixels, 2 tiles; all interleavings")
+    ctx.exhaustive = True
+
+    for sc, rec in zip(scs, l1):
+        traces.append(("real processes", sc, rec, L1_HIDDEN + (["read", "modify"] if sc.get("caller") else [])))
+        ctx.count(sum(sc["cfg"]["nupd"]))
 
     # ---- code -> spec: every recording validated by TLC, then judged
     verdicts = validate_traces(ctx, [(sc["cfg"], hidden, rec["events"], rec["tiles"]) for _k, sc, rec, hidden in traces])
@@ -1046,7 +1177,8 @@ def run(ctx):
     rejected_quiet = 0
     once = Once(ctx)
     for (kind, sc, rec, hidden), (acc, consumed) in zip(traces, verdicts):
-        prefix = "C10:update_image:" if kind == "real processes" else "C10:update_image:schedule:"
+        entry = "ToastSampler" if sc.get("caller") == "toast" else "update_image"
+        prefix = ("C10:%s:" % entry) if kind == "real processes" else ("C10:%s:schedule:" % entry)
         if rec.get("unfinished"):
             rec.setdefault("stuck", ["schedule did not finish in 400 steps"])
         hit = judge_recording(once, kind, prefix, sc, rec, acc, consumed)
